@@ -158,6 +158,11 @@ def geom_pool(tier):
     hook = [[1, 1000], [2, 1500], [1.2, 1550]]
     assert gm.valid("LineString", hook)
     pool.append({"type": "LineString", "coordinates": hook, "id": "hook"})
+    # extents that merely touch at a decimal end point (0.3 is not a binary fraction): touching is disjoint, affinity exactly 0
+    for gid, gtype, c in (("dec_a", "TimeInterval", [0.0, 0.3]), ("dec_b", "TimeInterval", [0.3, 0.9]),
+                          ("dec_c", "BoundingBox", [0.3, 1000, 0.9, 2000]), ("dec_d", "BoundingBox", [0.1, 1000, 0.3, 2000])):
+        assert gm.valid(gtype, c)
+        pool.append({"type": gtype, "coordinates": c, "id": gid})
     _POOLS[tier] = pool
     return pool
 
